@@ -22,8 +22,8 @@ _shim_info = None
 def _load_contracts(prop):
     from . import api
     mods = [f[:-3] for f in sorted(os.listdir(os.path.join(VERIF, 'contracts')))
-            if f.startswith(prop) and f.endswith('.py')]
-    if not mods:
+            if f.startswith(prop + '_') and f.endswith('.py')]
+    if not mods and not os.path.exists(os.path.join(VERIF, 'contracts', f'extra_{prop}.py')):
         raise SystemExit(f'no contract module for {prop}')
     for m in mods:
         importlib.import_module('contracts.' + m)
@@ -346,7 +346,9 @@ def run_property(prop, tier='quick', jobs=None, seed=0, only=None, write_baselin
             print(f"VIOLATION property={prop} replay={path}" + (f' {suffix}' if suffix else ''))
             print(f"  obligation {ob} on {', '.join(g.functions[:3])}: {v['how']}; {json.dumps(v['info'], default=str)[:300]}")
     if extra_res is not None:
-        status = max(status, extra_res.get('status', 0)) if status != EXIT_VIOLATION else status
+        es = extra_res.get('status', 0)
+        if es == EXIT_VIOLATION or status == EXIT_VIOLATION: status = EXIT_VIOLATION
+        else: status = max(status, es)
     if crashes:
         for r in crashes:
             print(f"ENGINE-ERROR {r['group']}/{r['cfg']['name']}: {r['error']}")
@@ -374,6 +376,8 @@ def run_property(prop, tier='quick', jobs=None, seed=0, only=None, write_baselin
         base = load_baseline()
         base = {k: v for k, v in base.items() if not k.startswith(prop + '/')}
         base.update({ob: s for ob, s in ob_status.items() if s == 'unsat'})
+        if extra_res is not None:
+            base.update(extra_res.get('baseline', {}))
         json.dump(base, open(os.path.join(VERIF, 'baseline_obligations.json'), 'w'), indent=0, sort_keys=True)
     from . import api
     samples = []
@@ -419,13 +423,13 @@ def run_property(prop, tier='quick', jobs=None, seed=0, only=None, write_baselin
                 cov[k] = v
     ev = {'property_id': prop, 'tier': tier, 'seed': seed, 'level': extra_res.get('level', 'proof') if extra_res else 'proof',
           'coverage': cov, 'assumptions': assumptions, 'wall_s': round(time.time() - t0, 2),
-          'violations': len(final_viol)}
+          'violations': len(final_viol) + (extra_res.get('violations', 0) if extra_res else 0)}
     lvl = _level_override(prop)
     if lvl: ev['level'] = lvl
     json.dump(ev, open(os.path.join(VERIF, 'evidence', f'{prop}.json'), 'w'), indent=1, default=str)
-    print(f"{prop} [{tier}] groups={len(groups)} configs={len(results)} paths={cov['paths']} obligations={n_ob} discharged={n_dis} "
+    print(f"{prop} [{tier}] groups={len(groups)} configs={len(results)} paths={cov['paths']} obligations={cov['obligations']} discharged={cov['discharged']} "
           f"vcs={cov['vcs_discharged']} cross-checked={cross_checked} canaries={canary_refuted}/{canary_total} "
-          f"known={len(known_hits)} violations={len(final_viol)} undecided={len(undecided)} wall={ev['wall_s']}s exit={status}")
+          f"known={len(known_hits)} violations={ev['violations']} undecided={len(undecided)} wall={ev['wall_s']}s exit={status}")
     return status
 
 
@@ -450,8 +454,20 @@ def _z3_version():
 
 def replay_file(prop, path):
     """Re-run a replay file natively (no rebinding); exit 1 if the clause still fails."""
-    _load_contracts(prop)
     d = json.load(open(path))
+    if d.get('mode') == 'U':
+        m = importlib.import_module('contracts.extra_' + prop)
+        import thermosteam  # noqa
+        ob = d['obligation'].split('/')
+        name = ob[2]
+        desc = next(dsc for nm, dsc in m.kernel_table() if nm == name)
+        failed = m.replay_native(name, list(desc), d['inputs'])
+        print(json.dumps({'failed': failed}, indent=1))
+        if failed:
+            print(f"VIOLATION property={prop} replay={path}")
+            return EXIT_VIOLATION
+        print('not reproduced'); return EXIT_OK
+    _load_contracts(prop)
     res = native_task((d['group'], d['cfg'], d['values'], d['tables'], [d['clause']]))
     print(json.dumps(res, indent=1, default=str))
     if d['clause'] in res['failed']:
